@@ -143,6 +143,9 @@ var c06Reverse = probe.Define("C06", "reverse", func(t *rapid.T) c06RevIn {
 
 func TestC06(t *testing.T) {
 	c := probe.NewCtx(t, "C06")
+	if c.Shard == 0 {
+		endurance(c, "C06", "sizes-multiple-of-4096", c.N(48, 400))
+	}
 	c06Forward.Run(c, t, c.N(2000, 20000))
 	c06Reverse.Run(c, t, c.N(600, 5000))
 }
